@@ -1,5 +1,7 @@
 import JivaVerif.Drv.Replica
+import JivaVerif.Drv.Controller
 def main (args : List String) : IO Unit := do
   match args with
   | ["replica"] => Jiva.Drv.replicaMain
-  | _ => IO.eprintln "usage: drv replica"
+  | ["ctl"] => Jiva.Drv.ctlMain
+  | _ => IO.eprintln "usage: drv replica|ctl"
